@@ -48,6 +48,7 @@ type kv struct {
 }
 
 type tcCase struct {
+	Frames   [][]byte // st: one WebSocket text frame per client message
 	Op       string
 	Schema   *Schema
 	Root     string
@@ -64,6 +65,12 @@ func (c *tcCase) Line() string {
 	t = append(t, "R", c.Root, "B", common.HexS(c.BodyPath), common.Hex(c.Body))
 	if c.Op == "ts" {
 		t = append(t, "N", strconv.Itoa(c.Calls))
+	}
+	if c.Op == "st" {
+		t = append(t, "F", strconv.Itoa(len(c.Frames)))
+		for _, fr := range c.Frames {
+			t = append(t, common.Hex(fr))
+		}
 	}
 	t = append(t, "PP", strconv.Itoa(len(c.PP)))
 	for _, p := range c.PP {
@@ -91,6 +98,13 @@ func parseCase(f []string) *tcCase {
 	if c.Op == "ts" {
 		r.expect("N")
 		c.Calls = r.int()
+	}
+	if c.Op == "st" {
+		r.expect("F")
+		n := r.int()
+		for i := 0; i < n; i++ {
+			c.Frames = append(c.Frames, common.MustUnHex(r.next()))
+		}
 	}
 	r.expect("PP")
 	n := r.int()
@@ -156,7 +170,11 @@ func (c *tcCase) runReal(cfg string) (out string) {
 	}
 	defer func() { out = canonPkg(out, b.Pkg) }()
 	body := bytes.ReplaceAll(c.Body, []byte(pkgPlaceholder), []byte(b.Pkg))
-	md := b.Msg(c.Root)
+	md := b.prodMsg(c.Root)
+	target := &bridgedesc.Target{Name: "t", FileResolver: b.Files, TypeResolver: b.Types}
+	if b.Prod != nil {
+		target = b.Prod
+	}
 	vals := url.Values{}
 	for _, q := range c.Q {
 		vals[q.K] = append([]string{}, q.V...)
@@ -168,7 +186,7 @@ func (c *tcCase) runReal(cfg string) (out string) {
 	tr := transcoding.NewStandardTranscoder(transcoding.StandardTranscoderOpts{})
 	method := &bridgedesc.Method{RPCName: "/x.S/M", Input: bridgedesc.DynamicMessage(md), Output: bridgedesc.DynamicMessage(md), ClientStreaming: c.Op == "ts"}
 	req := transcoding.HTTPRequest{
-		Target:     &bridgedesc.Target{Name: "t", FileResolver: b.Files, TypeResolver: b.Types},
+		Target:     target,
 		Service:    &bridgedesc.Service{Name: "x.S"},
 		Method:     method,
 		Binding:    &bridgedesc.Binding{HTTPMethod: "POST", Pattern: "/x", RequestBodyPath: c.BodyPath},
@@ -273,6 +291,19 @@ func (c *tcCase) decOracle() (out string) {
 		}
 		return "ok " + entriesTok(es)
 	}
+	if c.Op == "st" {
+		var res []string
+		for _, fr := range c.Frames {
+			frame := bytes.ReplaceAll(fr, []byte(pkgPlaceholder), []byte(b.Pkg))
+			res = append(res, one(func(m protoreflect.Message, fd protoreflect.FieldDescriptor) (bool, error) {
+				if len(frame) == 0 {
+					return false, nil
+				}
+				return true, oracleMarshaler.Unmarshal(b.Types, frame, m, fd)
+			}))
+		}
+		return strings.TrimSpace(strconv.Itoa(len(res)) + " " + strings.Join(res, " "))
+	}
 	if c.Op == "tc" {
 		return one(func(m protoreflect.Message, fd protoreflect.FieldDescriptor) (bool, error) {
 			if len(body) == 0 {
@@ -374,6 +405,26 @@ func (Area) Exec(input string) string {
 			rc = "same"
 		}
 		return "D " + c.decOracle() + " O " + c.oracleTable() + " RA " + ra + " RB " + rb + " RC " + rc
+	case "st":
+		c := parseCase(f)
+		if err := c.checkSchema(); err != nil {
+			return "BADSCHEMA " + common.HexS(err.Error())
+		}
+		return "D " + c.decOracle() + " O " + c.oracleTable() + " RS " + c.runWebSocket()
+	case "anyres":
+		r := &tokReader{t: f, i: 1}
+		sch := parseSchema(r)
+		u := string(common.MustUnHex(r.next()))
+		b, err := sch.build("A")
+		if err != nil {
+			return "buildfail"
+		}
+		u = strings.ReplaceAll(u, pkgPlaceholder, b.Pkg)
+		// the resolver the production glue installed for the target — must know exactly the target's own files
+		if _, err := b.Prod.TypeResolver.FindMessageByURL(u); err != nil {
+			return "notfound"
+		}
+		return "found"
 	case "pf":
 		return execPF(f[1], string(common.MustUnHex(f[2])))
 	case "hcp":
